@@ -5,7 +5,6 @@
 package main
 
 import (
-	"encoding/binary"
 	"fmt"
 	"os"
 	"runtime"
@@ -17,7 +16,7 @@ import (
 
 	"github.com/oasisprotocol/curve25519-voi/internal/strobe"
 	"github.com/oasisprotocol/curve25519-voi/internal/verif/mc"
-	"github.com/oasisprotocol/curve25519-voi/internal/verif/ref/refstrobe"
+	"github.com/oasisprotocol/curve25519-voi/primitives/merlin"
 )
 
 const rate = 166
@@ -132,9 +131,22 @@ type space struct {
 	alpha   []op
 	list    []packed
 	last    func(op) bool
+	// computed spaces (no packed list): n histories produced by gen
+	n   int
+	gen func(i int) hist
+}
+
+func (s *space) size() int {
+	if s.gen != nil {
+		return s.n
+	}
+	return len(s.list)
 }
 
 func (s *space) decode(i int) hist {
+	if s.gen != nil {
+		return s.gen(i)
+	}
 	p := s.list[i]
 	h := hist{create: s.creates[p.create]}
 	if p.sweep >= 0 {
@@ -264,6 +276,44 @@ func rngSpace(name string, thorough bool) *space {
 	return s
 }
 
+// lengthSweep (theme T4): EVERY data / output length 0..400 of every variable-length operation, from several
+// (quick) or all 166 (thorough) cursor residues, with an empty and a one-byte label:
+//
+//	AppendMessage(l, n); ExtractBytes(l, n); BuildRng, RekeyWithWitnessBytes(l, n), Finalize, Read(32);
+//	BuildRng, Finalize, Read(n)
+//
+// (a fast path with a fixed-size buffer is wrong at exactly one length or one length residue).
+func lengthSweep(thorough bool) *space {
+	starts := []int{0, 100, 163, 164, 165}
+	if thorough {
+		starts = nil
+		for p := 0; p < rate; p++ {
+			starts = append(starts, p)
+		}
+	}
+	const maxLen = 400
+	prod := mc.Product{Radix: []int{len(starts), 4, 2, maxLen + 1}}
+	s := &space{name: "lengths", creates: []int{13}, n: prod.Size()}
+	s.gen = func(i int) hist {
+		var d [4]int
+		prod.Decode(i, d[:])
+		h := hist{create: 13, ops: []op{{kind: kAppend, label: 0, n: starts[d[0]]}}}
+		l, n := d[2], d[3]
+		switch d[1] {
+		case 0:
+			h.ops = append(h.ops, op{kind: kAppend, label: l, n: n})
+		case 1:
+			h.ops = append(h.ops, op{kind: kExtract, label: l, n: n})
+		case 2:
+			h.ops = append(h.ops, op{kind: kBuildRng}, op{kind: kRekey, label: l, n: n}, op{kind: kFinalize, reader: rdZero}, op{kind: kRead, n: 32})
+		default:
+			h.ops = append(h.ops, op{kind: kBuildRng}, op{kind: kFinalize, reader: []int{rdZero, rdGeneric}[l]}, op{kind: kRead, n: n})
+		}
+		return h
+	}
+	return s
+}
+
 // largeSpace: lengths whose LE32 framing uses the 2nd, 3rd (and, thorough, 4th) byte.
 func largeSpace(thorough bool) *space {
 	s := &space{name: "large", creates: []int{13}}
@@ -380,6 +430,10 @@ func replayTarget() string {
 }
 
 func run(c *mc.Ctx) {
+	if m := strobe.VerifMissing() + merlin.VerifMissing(); m != "" {
+		stateHook = false
+		c.Cap("the STROBE state can no longer be read from this tree (" + m + "): state comparisons skipped, every output is still compared with the reference")
+	}
 	if pf := os.Getenv("VERIF_CPUPROFILE"); pf != "" { // developer aid only
 		if f, err := os.Create(pf); err == nil {
 			_ = pprof.StartCPUProfile(f)
@@ -400,10 +454,11 @@ func run(c *mc.Ctx) {
 	}
 	spaces = append(spaces, rngSpace("rng", c.Thorough))
 	spaces = append(spaces, largeSpace(c.Thorough))
+	spaces = append(spaces, lengthSweep(c.Thorough))
 
 	sizes := map[string]int{"alphabet_full": len(full), "alphabet_core": len(core), "alphabet_mid": len(midAlphabet())}
 	for _, s := range spaces {
-		sizes["histories_"+s.name] = len(s.list)
+		sizes["histories_"+s.name] = s.size()
 	}
 	c.Rep.Extra["sizes"] = sizes
 
@@ -414,7 +469,7 @@ func run(c *mc.Ctx) {
 	if strings.HasPrefix(replayTarget(), "injective:") {
 		for _, s := range spaces {
 			s := s
-			parFor(len(s.list), func(i int) {
+			parFor(s.size(), func(i int) {
 				defer func() { _ = recover() }()
 				a.absorb(runHistory(s.decode(i)))
 			})
@@ -423,7 +478,7 @@ func run(c *mc.Ctx) {
 
 	for _, s := range spaces {
 		s := s
-		c.Par(s.name, len(s.list), func(w *mc.W, i int) {
+		c.Par(s.name, s.size(), func(w *mc.W, i int) {
 			h := s.decode(i)
 			counted := false
 			defer guard(w, h, &counted, "history/"+s.name)
@@ -444,7 +499,7 @@ func run(c *mc.Ctx) {
 
 	// Identical histories give identical outputs, also when two objects are interleaved.
 	det := spaces[0]
-	c.Par("determinism", len(det.list), func(w *mc.W, i int) {
+	c.Par("determinism", det.size(), func(w *mc.W, i int) {
 		h := det.decode(i)
 		counted := true
 		w.Eval("lockstep", len(h.ops) >= 2)
@@ -505,8 +560,9 @@ func run(c *mc.Ctx) {
 	ev := map[string]int64{"F_at_rate_boundary": a.fullF, "forced_F": a.forcedF, "forced_F_skipped_cursor_0": a.forcedSkipped,
 		"begin_op_on_last_byte": a.beginRm1, "begin_op_two_bytes_left": a.beginRm2}
 	c.Rep.Extra["reference_events"] = ev
-	if !c.Replaying() {
-		// vacuity guards on reference-side counts
+	if !c.Replaying() && atomic.LoadInt64(&abortedHistories) == 0 {
+		// vacuity guards on reference-side counts (the events of a history are only known once it has run to
+		// its end, so the guards are not applied when the library panicked somewhere: that is a violation already)
 		for k, v := range ev {
 			if v < 50 {
 				c.Broken(fmt.Sprintf("vacuity guard: reference event %q occurred only %d times", k, v))
@@ -520,17 +576,20 @@ func run(c *mc.Ctx) {
 	c.Require("history/sweep1", 10000)
 	c.Require("history/sweep2", 10000)
 	c.Require("history/rng", 10000)
-	c.Require("keccak/single-bit", 1600)
+	c.Require("history/lengths", 10000)
 }
 
 // guard turns a panic of the implementation into a violation of this case (also when a
 // single case is replayed, where the engine does not recover), after making sure the case
 // was counted in its reference-side class, so that a crashing library cannot trip a vacuity guard.
+var abortedHistories int64 // histories cut short by a panic of the library: their reference events are not counted
+
 func guard(w *mc.W, h hist, counted *bool, class string) {
 	if r := recover(); r != nil {
 		if !*counted {
 			w.Eval(class, false)
 		}
+		atomic.AddInt64(&abortedHistories, 1)
 		buf := make([]byte, 2048)
 		buf = buf[:runtime.Stack(buf, false)]
 		w.Fail("merlin/panic", fmt.Sprintf("panic: %v | history: %s\n%s", r, h, buf), map[string]string{"history": h.String()})
@@ -555,82 +614,4 @@ func parFor(n int, f func(i int)) {
 		}()
 	}
 	wg.Wait()
-}
-
-// ---------------------------------------------------------------------------
-// The Keccak permutation of this build vs the plain-loop reference
-// ---------------------------------------------------------------------------
-
-func keccakCheck(c *mc.Ctx) {
-	nGen := c.Pick(2000, 50000)
-	n := 1600 + 4 + nGen
-	c.Par("keccak", n, func(w *mc.W, i int) {
-		var st [200]byte
-		class := "keccak/generic"
-		switch {
-		case i < 1600:
-			st[i/8] = 1 << (uint(i) % 8)
-			class = "keccak/single-bit"
-		case i == 1600:
-			class = "keccak/fixed"
-		case i == 1601:
-			for k := range st {
-				st[k] = 0xff
-			}
-			class = "keccak/fixed"
-		case i == 1602:
-			for k := range st {
-				st[k] = 0x55
-			}
-			class = "keccak/fixed"
-		case i == 1603:
-			for k := range st {
-				st[k] = byte(k)
-			}
-			class = "keccak/fixed"
-		default:
-			copy(st[:], mc.Bytes(c.Seed, "keccak", i, 200))
-			if i%3 == 0 { // sparse states
-				for k := range st {
-					if k%7 != i%7 {
-						st[k] = 0
-					}
-				}
-			}
-		}
-		in := st
-		want := st
-		refstrobe.KeccakF1600(&want)
-		got := st
-		strobe.VerifKeccakF1600Bytes(&got)
-		w.Eval(class, true)
-		if got != want {
-			w.Fail("keccak/permutation", fmt.Sprintf("keccakF1600Bytes(%x) differs from the FIPS 202 reference (first bytes %x want %x)", in, got[:16], want[:16]), map[string]string{"state": mc.Hex(in[:])})
-		}
-		var lanes [25]uint64
-		for k := range lanes {
-			lanes[k] = binary.LittleEndian.Uint64(in[8*k:])
-		}
-		strobe.VerifKeccakF1600Lanes(&lanes)
-		for k := range lanes {
-			if lanes[k] != binary.LittleEndian.Uint64(want[8*k:]) {
-				w.Fail("keccak/permutation-lanes", fmt.Sprintf("keccakF1600(%x) lane %d differs from the FIPS 202 reference", in, k), map[string]string{"state": mc.Hex(in[:])})
-				break
-			}
-		}
-		// iterating the permutation (the state of a long squeeze)
-		if i%50 == 0 {
-			a, b := in, in
-			for k := 0; k < 8; k++ {
-				refstrobe.KeccakF1600(&a)
-				strobe.VerifKeccakF1600Bytes(&b)
-			}
-			if a != b {
-				w.Fail("keccak/permutation", fmt.Sprintf("8-fold iteration from %x differs", in), map[string]string{"state": mc.Hex(in[:])})
-			}
-		}
-		if i%701 == 0 {
-			w.Sample(map[string]string{"op": "keccak-f[1600]", "state_prefix": mc.Hex(in[:24])})
-		}
-	})
 }
